@@ -14,6 +14,7 @@ import (
 	"sort"
 	"strings"
 	"sync"
+	"sync/atomic"
 	"time"
 
 	clocktesting "k8s.io/utils/clock/testing"
@@ -73,13 +74,19 @@ const (
 	evRecv   = 0
 	evClosed = 1
 	evDone   = 2
+	evOpen   = 3 // I = subscriber, V = step of the Close call at whose return its channel was found open
 )
 
 type c10Sub struct {
-	ch     chan int
-	cmd    chan int // 1 = read one value, 2 = read everything from now on
-	cancel context.CancelFunc
-	ctx    context.Context
+	// idle: the consumer is NOT receiving from ch (reader on command with no read outstanding): only
+	// then may the caller of Close probe the channel itself at the moment Close returns
+	manual  bool
+	pending atomic.Int32 // read commands issued and not yet completed
+	all     atomic.Bool  // told to read everything
+	ch      chan int
+	cmd     chan int // 1 = read one value, 2 = read everything from now on
+	cancel  context.CancelFunc
+	ctx     context.Context
 }
 
 type c10Run struct {
@@ -107,9 +114,11 @@ func (r *c10Run) consumer(i int, s *c10Sub, prompt bool) {
 			v, ok := <-s.ch
 			if !ok {
 				r.rec(evClosed, i, 0)
+				s.pending.Add(-1)
 				return
 			}
 			r.rec(evRecv, i, v)
+			s.pending.Add(-1)
 		}
 	}
 	for v := range s.ch {
@@ -241,6 +250,9 @@ func c10Exec(in c10Input) ([]c10Ev, error) {
 			if e.Kind == evDone {
 				return 2*nsub + e.V
 			}
+			if e.Kind == evOpen {
+				return 2*nsub + 1000000 + 1000*e.V + e.I
+			}
 			return 2*e.I + e.Kind
 		}
 		sort.SliceStable(fr, func(a, b int) bool { return key(fr[a]) < key(fr[b]) })
@@ -257,9 +269,11 @@ func c10Exec(in c10Input) ([]c10Ev, error) {
 		switch op.Op {
 		case "sub":
 			ctx, cancel := context.WithCancel(context.Background())
-			s := &c10Sub{ch: make(chan int), cmd: make(chan int, 4096), cancel: cancel, ctx: ctx}
+			s := &c10Sub{ch: make(chan int), cmd: make(chan int, 4096), cancel: cancel, ctx: ctx, manual: !op.P}
 			i := len(r.subs)
+			r.mu.Lock()
 			r.subs = append(r.subs, s)
+			r.mu.Unlock()
 			go r.consumer(i, s, op.P)
 			if op.C {
 				cancel()
@@ -278,14 +292,38 @@ func c10Exec(in c10Input) ([]c10Ev, error) {
 			r.b.Batch(op.K, step)
 			r.rec(evDone, 0, step)
 		case "read":
+			if r.subs[op.I].manual && !r.subs[op.I].all.Load() {
+				r.subs[op.I].pending.Add(1)
+			}
 			r.subs[op.I].cmd <- 1
 		case "readall":
+			r.subs[op.I].all.Store(true)
 			r.subs[op.I].cmd <- 2
 		case "cancel":
 			r.subs[op.I].cancel()
 		case "close":
 			closeCalled = true
-			call(step, func() { r.b.Close() })
+			// "after Close returns every subscriber channel HAS BEEN closed": the caller checks at
+			// once, itself, on the channels nobody is receiving from at this moment
+			call(step, func() {
+				r.b.Close()
+				r.mu.Lock()
+				subsNow := append([]*c10Sub(nil), r.subs...)
+				r.mu.Unlock()
+				for i, s := range subsNow {
+					if !s.manual || s.all.Load() || s.pending.Load() != 0 {
+						continue
+					}
+					select {
+					case _, ok := <-s.ch:
+						if ok { // a value after Close returned: the channel is certainly not closed
+							r.rec(evOpen, i, step)
+						}
+					default: // a receive would block: still open
+						r.rec(evOpen, i, step)
+					}
+				}
+			})
 		}
 		if err := c10Settle(); err != nil {
 			runErr = err
